@@ -672,6 +672,30 @@ pub fn run(tier: Tier, replay: Option<String>) -> i32 {
             });
         }
     });
+    // layouts with many regions (more than any small universe can hold)
+    for n in [9usize, 10, 16, 17, 33, 65] {
+        for pattern in 0..3 {
+            let l = super::c02::many_regions(0x1000, n, pattern);
+            let st = Model::labelled(&l);
+            let span = l.regs.last().unwrap().0 + l.regs.last().unwrap().1 - 0x1000;
+            let m = build_mmap(&l).unwrap();
+            let mut t = 0u64;
+            for d in 0..=span {
+                for len in [1usize, 2, 3, 4, 5, 8, span as usize + 1] {
+                    for (ri, route) in ROUTES.iter().enumerate() {
+                        if route.supports(len) {
+                            let op = Op { route: *route, addr: 0x1000 + d, len, tag: ri as u8 + 1 };
+                            step(&ctx, anon, &m, &l, &st, &op, &[], None);
+                            t += 1;
+                        }
+                    }
+                }
+            }
+            ctx.add_transitions(t);
+            ctx.add_traces(t);
+            ctx.add_states(1);
+        }
+    }
     if !xen {
         // wrap-around layouts, trait-default implementation only
         for lo in 1..=2u64 {
